@@ -322,6 +322,9 @@ def execute(plan):
                     return rs.randn(n) + 1j * rs.randn(n)
                 xs = [sig_shape() for _ in range(n_in)]
                 sig = np.array(xs) if multi else xs[0]          # multiuser: (users, [antennas,] samples)
+                if mimo and not multi and ant_in == 1 and op["seed"] % 2 == 0:
+                    sig = sig[0]                                  # a single transmit antenna also accepts a 1-D signal
+                    bump(res["probes"], "one_dimensional_signal_into_single_antenna_mimo")
                 if o == "time":
                     y = ch.corrupt_data(sig.copy())
                 else:
